@@ -1778,7 +1778,7 @@ fn run_case(ctx: &mut Ctx, fx: &Fixture, persist_cfg: bool, gens: &[GenQ], plans
                 }
             } else if ideal.nonobj > 0 && ideal.dead == 0 {
                 // a plugin broke the invariant (an expanded "query" that is not an object): the pipeline answers the
-                // whole query with one invariant error that names the original query (c053049: it named the placeholder);
+                // whole query with one invariant error that names the original query (755333a: it named the placeholder);
                 // the expanded queries that were fine are lost with it (part of the known sibling-loss finding)
                 if one_error && resp[0].get("error") == Some(&json!("Invariant")) {
                     if resp[0].get("request") != Some(&g.q) {
@@ -2288,7 +2288,7 @@ pub fn run(ctx: &mut Ctx, profile: Profile) -> &'static str {
     }
     if let Some(i) = find("user_breaker") {
         let (fx, pc) = &fixtures[i];
-        // a user-defined plugin that breaks the invariant: invariant errors (c053049: they named the placeholder
+        // a user-defined plugin that breaks the invariant: invariant errors (755333a: they named the placeholder
         // request), an erased query, a two-level nesting, a mixed state made by one plugin
         let b: Vec<GenQ> = ["scalar", "null", "nested", "empty", "mixed", "none"].iter().map(|m| gq(json!({"origin_vertex": 0, "destination_vertex": 3, "break": m}), Expect::Any, "user_plugin_keys", None)).collect();
         run_case(ctx, fx, *pc, &b, simple(vec![None, Some(2)], 6), "corpus_invariant_breaker", 20);
